@@ -136,7 +136,7 @@ var addedRulesW7 = map[string]string{
 	"C05": " One request kind: a client that closes or half-closes right after its request while the authentication service takes 1-3 s to answer (nobody was confirmed).",
 	"C06": " 1 run in 8 has the client silent on its open channel for 6-16 minutes (longer than every cache lifetime inside the gateway) before it carries on; the silence starts only when the gateway has answered what was sent and every other tunnel is set up.",
 	"C07": " 1 run in 8 has one legacy session silent for 6-16 minutes, after which somebody else knocks (an RDG_OUT_DATA request that goes no further); 1 run in 8 starts after somebody else presented a cookie with a revoked access token 3-6 times.",
-	"C08": " When the stream cannot be framed any further, the payloads of the complete data packets in front of that point must have reached the host.",
+	"C08": " When the gateway ends the tunnel at a header whose length field is too small (the client staying connected), the payloads of the complete data packets in front of that header must have reached the host.",
 	"C09": " A quarter of the runs configure an idle timeout of 1-3 minutes; half of their sessions pause for 2-9 s in mid-session.",
 	"C10": " The realm's KDC answers properly or with something that is not a framed reply (length prefix with the top bit set, 0xffffffff, text); well-formed KDC-proxy requests are among the bodies; NTLM authenticate messages also come in the three shorter layouts (72-, 64- and 52-byte fixed part) for existing and unknown users; one input kind is a burst of 9-16 logins while the authentication service needs longer than the gateway waits.",
 	"C11": " 1 legacy run in 6 outlives every cache lifetime (6-16 minutes pass) before the tunnel ends.",
